@@ -177,6 +177,16 @@ func newC10Env(c *core.Ctx, cfg c10Cfg) (*c10Env, error) {
 		}
 	}
 	h := store.Handler{Store: e.st, Transformer: tr, Default: e.def}
+	if cfg.Nest || cfg.Store == "badger" {
+		// the same handler put together with the With* methods
+		h = store.Handler{}.WithStore(e.st)
+		if tr != nil {
+			h = h.WithTransformer(tr)
+		}
+		if e.def != nil {
+			h = h.WithDefault(e.def)
+		}
+	}
 	e.rig = newRig("svc", func(s *res.Service) {
 		typ := res.Model
 		if cfg.Type != "model" {
